@@ -224,8 +224,11 @@ def run(C, R):
         nlock = len(scan_calls(F, lambda ci: ci['path'].startswith('lock_api::') and ci['name'] == 'lock'))
         R.floor('C01.I5 control(lock_api lock calls)[%s]' % cfg, nlock, 30)
         nrecv = 0
+        from rl import state_layer as _state_layer
+        _layer = _state_layer(F, CG, sorted(roles.state_structs))
         for sp in sorted(roles.state_structs):
-            own = set(m['path'] for m in F.methods_of(sp))
+            # the state's methods and the private helpers only they call (which receive the state as a parameter)
+            own = set(m['path'] for m in F.methods_of(sp)) | set(p_ for p_, s_ in _layer.items() if s_ == sp)
             for m in F.methods_of(sp):
                 if m.get('name') == 'new':
                     continue
